@@ -21,6 +21,9 @@ def hx(rng, n, style="normal", lo=0.05):
             v = rng.uniform(-1.0, 1.0)
         elif style == "data":
             v = rng.gauss(1.0, 1.5)
+        elif style == "data0":
+            # mixed sign with exact zeros (weight maps with dead pixels, background-subtracted images)
+            v = 0.0 if rng.random() < 0.25 else rng.gauss(0.5, 1.5)
         else:
             raise ValueError(style)
         out.append(prng.fhex(v))
@@ -186,10 +189,11 @@ def gen_purity_world(rw, rv, knobs):
             k = rw.choice(["array2d", "grid2d", "grid2d", "grid2d_values", "vector", "kernel", "vis", "array1d", "irregular", "array2d", "operators", "mask_ctor", "kernel_gaussian"])
             mid, bits_, hh, ww, nn = rw.choice([(m0, m0_bits, h, w, n0), (m2, m2_bits, h2, w2, n2)])
             if k == "array2d":
+                vstyle = rw.choice(["data", "data", "data0", "positive"])
                 if rw.random() < 0.5:
-                    R.add("a", {"kind": "array2d", "mask": ref(mid), "input": "native", "values": hx(rv, hh * ww, "data"), "store_native": rw.random() < 0.3})
+                    R.add("a", {"kind": "array2d", "mask": ref(mid), "input": "native", "values": hx(rv, hh * ww, vstyle), "store_native": rw.random() < 0.3})
                 else:
-                    R.add("a", {"kind": "array2d", "mask": ref(mid), "input": "slim", "values": hx(rv, nn, "data"), "store_native": rw.random() < 0.3})
+                    R.add("a", {"kind": "array2d", "mask": ref(mid), "input": "slim", "values": hx(rv, nn, vstyle), "store_native": rw.random() < 0.3})
             elif k == "grid2d":
                 over = rw.choice([None, None, {"uniform": 2}, {"uniform": 1}, {"perpix": [rw.choice([1, 2, 3]) for _ in range(nn)]}, {"iterate": [2, 4]},
                                   {"iterate": [2, 4, 8], "accuracy": 0.99}, {"iterate": [2, 4, 8], "accuracy": 0.999}])
@@ -275,7 +279,7 @@ def gen_purity_world(rw, rv, knobs):
     if "inversion" in want and ds_masked is not None:
         adapt = None
         if rw.random() < 0.5:
-            adapt = R.add("a", {"kind": "array2d", "mask": ref(m0), "input": "slim", "values": hx(rv, n0, "positive")})
+            adapt = R.add("a", {"kind": "array2d", "mask": ref(m0), "input": "slim", "values": hx(rv, n0, rw.choice(["positive", "data", "data0"]))})
         objs = []
         for _ in range(rw.randrange(1, 3)):
             if rw.random() < 0.75:
@@ -468,7 +472,7 @@ def gen_preloads_world(rw, rv, knobs):
 
     adapt = None
     if rw.random() < 0.4:
-        adapt = R.add("a", {"kind": "array2d", "mask": ref(m0), "input": "slim", "values": hx(rv, n0, "positive")})
+        adapt = R.add("a", {"kind": "array2d", "mask": ref(m0), "input": "slim", "values": hx(rv, n0, rw.choice(["positive", "data", "data0"]))})
     obj_specs = []
     n_obj = rw.randrange(1, 4)
     for _ in range(n_obj):
